@@ -5,6 +5,7 @@ import (
 	"math"
 	"math/big"
 	"math/rand/v2"
+	"regexp"
 	"sort"
 	"strings"
 
@@ -60,7 +61,11 @@ type c15El struct {
 
 var c15Ints = []int64{0, 1, -1, 2, 3, 10, 16, 255, -5, 100, 1000, 1 << 31, -(1 << 31), 1 << 53, 1<<53 + 1, math.MaxInt64, math.MinInt64, math.MaxInt64 - 1, math.MinInt64 + 1, 1 << 62, -(1 << 62)}
 var c15Floats = []float64{0.5, 1.0, 1.5, -2.25, 3.0, 1e3, 1e-3, 10.0, 16.0, 1e21, -1e21, 255.0, 2.5e10, 9.2e18, -9.3e18}
-var c15Strs = []string{"", "a", "b", "B", "ab", "abc", "10", "9", "1", "2", "1.5", "-1", "0x10", "true", "null", "zed", "é", "Z", "a b", " ", "~", "10a", "1e3", "日本"}
+var c15Strs = []string{"", "a", "b", "B", "ab", "abc", "10", "9", "1", "2", "1.5", "-1", "0x10", "true", "null", "zed", "é", "Z", "a b", " ", "~", "10a", "1e3", "日本",
+	// strings that spell instants: strings all the same, ordered by code point
+	"2021-01-01T00:00:00Z", "2021-01-01T01:00:00+02:00", "2021-01-01T00:30:00Z", "2021-01-01T00:00:00+00:00", "2021-01-01T00:00:00.5Z"}
+
+var c15Instant = regexp.MustCompile(`^\d{4}-\d{2}-\d{2}(T|$)`)
 
 func c15Elem(r *rand.Rand) c15El {
 	switch r.IntN(12) {
@@ -68,9 +73,9 @@ func c15Elem(r *rand.Rand) c15El {
 		return c15El{ref.NullV(), []string{"null", "~"}[r.IntN(2)]}
 	case 1:
 		b := r.IntN(2) == 0
-		sp := "false"
+		sp := []string{"false", "false", "False", "FALSE"}[r.IntN(4)]
 		if b {
-			sp = "true"
+			sp = []string{"true", "true", "True", "TRUE"}[r.IntN(4)]
 		}
 		return c15El{ref.BoolV(b), sp}
 	case 2, 3, 4, 5:
@@ -458,8 +463,22 @@ func (p c15) Run(w *mon.Worker, idx int) mon.Result {
 
 	case "cmp":
 		els := c15Pool(r, 6)
+		{
+			// a string that spells an instant is a date-time to the comparison operators (documented: they compare
+			// date-times as times, and fail when the other side is not one); `sort` orders it as the string it is. Not
+			// the same relation: such strings stay in the sort / stable / laws families only
+			kept := els[:0]
+			for _, e := range els {
+				if !(e.v.K == ref.Str && c15Instant.MatchString(e.v.S)) {
+					kept = append(kept, e)
+				}
+			}
+			els = kept
+		}
 		for len(els) < 2 {
-			els = append(els, c15Elem(r))
+			if e := c15Elem(r); !(e.v.K == ref.Str && c15Instant.MatchString(e.v.S)) {
+				els = append(els, e)
+			}
 		}
 		doc := c15Doc(els)
 		res.Case = map[string]any{"doc": doc, "expr": ".[i] OP .[j], min, max"}
